@@ -1,6 +1,7 @@
 import LayerModel.Base.Abi
 import LayerModel.Base.Keccak
 import Driver.Util
+import LayerModel.Gen.Formulas
 namespace Driver
 open Layer Layer.Abi Layer.Bytes
 
@@ -39,6 +40,24 @@ def runCheckpoint (inp : List String) (out : String) : Option Res := do
     -- the contract takes a bytes32: the comparison is meaningful for 32-byte hashes (what the chain stores)
     let mon := if h.length == 32 then kec (solCheckpointPre th ts h) == out else true
     pure { agree := m == out, monitor := mon, nontrivial := h.length == 32, model := m }
+  | _ => none
+
+/-- family `vparams`: the stored checkpoint parameters of the real `SetBridgeValidatorParams` — threshold by the regenerated formula
+    (monitor: exactly ⌊2·total/3⌋), validator-set hash and checkpoint by the keeper's / the contract's pre-images -/
+def runVparams (inp : List String) (out : String) : Option Res := do
+  match inp with
+  | [vsS, tsS] =>
+    let vs ← parseVals vsS
+    let ts ← parseNat? tsS
+    let total : Int := ((vs.map (fun v => (v.2 : Int))).sum)
+    let thrM := (Layer.Gen.powerThreshold total).toNat
+    let thrS := ((2 * total) / 3).toNat
+    let hM := Keccak.keccak256 (goValsetBytes vs)
+    let hS := Keccak.keccak256 (solValsetBytes vs)
+    let m := s!"{thrM}:{ts}:{Bytes.toHex hM}:{kec (goCheckpointPre thrM ts hM)}"
+    let spec := s!"{thrS}:{ts}:{Bytes.toHex hS}:{kec (solCheckpointPre thrS ts hS)}"
+    pure { agree := m == out, monitor := spec == out, nontrivial := decide (total % 3 ≠ 0), model := m,
+           note := if spec == out then "" else s!"total power {total}: stored parameters {out}, two thirds rounded down give {spec}" }
   | _ => none
 
 /-- the contract side: the digest of `verifyOracleData` -/
